@@ -152,5 +152,43 @@ theorem bogoliubov_constraint_of_car (n : Nat) (ad a : Nat → R) (hc : CAR n ad
   unfold dl
   by_cases e : i = j <;> simp [e]
 
+/-- the anticommutator `{b†_i, b†_j}` is the scalar `Σ_k (A_ik B_jk + B_ik A_jk)` — unconditionally -/
+theorem bogoliubov_anticomm_value_dd (n : Nat) (ad a : Nat → R) (hc : CAR n ad a) (A B : Nat → Nat → K) (i j : Nat) :
+    bdag n A B ad a i * bdag n A B ad a j + bdag n A B ad a j * bdag n A B ad a i =
+      (∑ k ∈ range n, (A i k * B j k + B i k * A j k)) • (1 : R) := by
+  have aa : ∀ k ∈ range n, ∀ l ∈ range n, a k * a l + a l * a k = 0 :=
+    fun k hk l hl => hc.aa k l (mem_range.mp hk) (mem_range.mp hl)
+  have dd : ∀ k ∈ range n, ∀ l ∈ range n, ad k * ad l + ad l * ad k = 0 :=
+    fun k hk l hl => hc.dd k l (mem_range.mp hk) (mem_range.mp hl)
+  have adl : ∀ k ∈ range n, ∀ l ∈ range n, a k * ad l + ad l * a k = (dl k l : R) :=
+    fun k hk l hl => hc.ad k l (mem_range.mp hk) (mem_range.mp hl)
+  have dal : ∀ k ∈ range n, ∀ l ∈ range n, ad k * a l + a l * ad k = (dl k l : R) := by
+    intro k hk l hl
+    rw [add_comm, dl_comm]; exact hc.ad l k (mem_range.mp hl) (mem_range.mp hk)
+  unfold bdag
+  rw [anticomm_sum]
+  have : ∀ k ∈ range n, ∑ l ∈ range n, ((A i k • ad k + B i k • a k) * (A j l • ad l + B j l • a l)
+      + (A j l • ad l + B j l • a l) * (A i k • ad k + B i k • a k)) =
+      (A i k * B j k + B i k * A j k) • (1 : R) := by
+    intro k hk
+    have e : ∀ l ∈ range n, ((A i k • ad k + B i k • a k) * (A j l • ad l + B j l • a l)
+        + (A j l • ad l + B j l • a l) * (A i k • ad k + B i k • a k)) =
+        (A i k * B j l + B i k * A j l) • (dl k l : R) := by
+      intro l hl
+      rw [anticomm_term, aa k hk l hl, dd k hk l hl, adl k hk l hl, dal k hk l hl]
+      simp only [smul_zero, add_zero, zero_add, add_smul]
+    rw [sum_congr rfl e, dl_smul_sum n k (mem_range.mp hk)]
+  rw [sum_congr rfl this, ← sum_smul]
+
+/-- **CAR ⇒ second canonical constraint** (`W1 W2ᵀ + W2 W1ᵀ = 0`) when scalars act faithfully on `1` -/
+theorem bogoliubov_constraint2_of_car (n : Nat) (ad a : Nat → R) (hc : CAR n ad a) (A B A' B' : Nat → Nat → K)
+    (hinj : ∀ x y : K, x • (1 : R) = y • (1 : R) → x = y)
+    (hb : CAR n (bdag n A B ad a) (bann n A' B' ad a)) (i j : Nat) (hi : i < n) (hj : j < n) :
+    ∑ k ∈ range n, (A i k * B j k + B i k * A j k) = 0 := by
+  have h1 := bogoliubov_anticomm_value_dd n ad a hc A B i j
+  rw [hb.dd i j hi hj] at h1
+  apply hinj
+  rw [← h1, zero_smul]
+
 end Car
 end OFV
